@@ -170,6 +170,12 @@ func serialiseXMP(c *Ctx, props []xprop, st xmpStyle) []byte {
 	var b bytes.Buffer
 	b.WriteString(st.junk)
 	q := string(st.quote)
+	inT := func() string {
+		if st.inTag == nil {
+			return ""
+		}
+		return st.inTag()
+	}
 	b.WriteString("<x:xmpmeta xmlns:x=" + q + "adobe:ns:meta/" + q + " x:xmptk=" + q + "Adobe XMP Core 5.6" + q + ">" + st.pad())
 	b.WriteString("<rdf:RDF xmlns:rdf=" + q + "http://www.w3.org/1999/02/22-rdf-syntax-ns#" + q + ">" + st.pad())
 	b.WriteString("<rdf:Description rdf:about=" + q + q)
@@ -182,14 +188,8 @@ func serialiseXMP(c *Ctx, props []xprop, st xmpStyle) []byte {
 	}
 	for i, p := range props {
 		if p.array == "" && st.form[i] {
-			b.WriteString(st.pad() + " " + p.prefix + ":" + p.name + "=" + q + p.val + q)
+			b.WriteString(st.pad() + " " + p.prefix + ":" + p.name + inT() + "=" + inT() + q + p.val + q)
 		}
-	}
-	inT := func() string {
-		if st.inTag == nil {
-			return ""
-		}
-		return st.inTag()
 	}
 	b.WriteString(inT() + ">" + st.pad())
 	for i, p := range props {
